@@ -31,7 +31,10 @@ META = {
                   "reports, LUBA/SCI confirmations), z3/cvc5, symx (each path re-run concretely).",
     "explanation": "real driver coroutines under a virtual clock with the fault schedule as symbolic choice variables",
     "bounds": ["<= 2 callers", "<= 2 losses per run", "reconnect limit in {None, 0, 1, 3}, 0..2 failing reconnect "
-               "attempts", "one cancellation at a symbolic await point; sequence counter arbitrary in 1..255"],
+               "attempts", "one cancellation at a symbolic await point; sequence counter arbitrary in 1..255",
+               "serial: a first send cancelled at one of nine moments (before the write, waiting for the "
+               "confirmation, waiting for the answer) on a gateway that confirms / answers it or not, followed "
+               "by a second send that must get its own answer in time"],
     "stubs": ["fake os / transport (harness environment)", "struct format interpreter in symbolic mode"],
     "outside": ["3 callers x every quiescent point", "OS-level behaviour of os.read / add_reader",
                 "sends issued while the device is away and never returns (they wait by design)"],
